@@ -38,14 +38,14 @@ Definition py_eqb (a b : leaf) : bool :=
   | _, _ => num_eqb a b
   end.
 
-(* typed equality of scalars: what "equal as data" means for the property *)
+(* typed equality of scalars: what "equal as data" means for the property: same node class and same str()
+   (str() is injective on the values of each scalar type; -0.0 and 0.0 are different data) *)
 Definition leaf_data_eqb (a b : leaf) : bool :=
-  lkind_eqb (lk a) (lk b) &&
-  match lk a with
-  | KStr => str_eqb (ltext a) (ltext b)
-  | KNull => true
-  | _ => num_eqb a b
-  end.
+  lkind_eqb (lk a) (lk b) && match lk a with KNull => true | _ => str_eqb (ltext a) (ltext b) end.
+
+(* the serialiser's invariant: for two leaves of the same numeric class, equal str() means equal value *)
+Definition leaf_consistent (a b : leaf) : bool :=
+  if is_numeric (lk a) && lkind_eqb (lk a) (lk b) && str_eqb (ltext a) (ltext b) then num_eqb a b else true.
 
 Inductive tree :=
   | Leaf (l : leaf)
@@ -136,15 +136,27 @@ Fixpoint data_eqb (a b : tree) {struct a} : bool :=
          | _, _ => false
          end) xs ys
   | Kvp _ k v, Kvp _ k' v' => data_eqb k k' && data_eqb v v'
-  | MSet _ xs, MSet _ ys | FDict xs, FDict ys | MSet _ xs, FDict ys | FDict xs, MSet _ ys =>
+  | MSet _ xs, MSet _ ys | FDict xs, FDict ys =>
+      (* mappings are unordered: same number of members, mutual inclusion *)
       Nat.eqb (length xs) (length ys) &&
       (fix all (xs : list tree) : bool :=
          match xs with
          | [] => true
          | x :: xs' => existsb (fun y => data_eqb x y) ys && all xs'
-         end) xs
+         end) xs &&
+      forallb (fun y => existsb (fun x => data_eqb x y) xs) ys
   | _, _ => false
   end.
+
+(* every pair of leaves (one from each tree) satisfies the serialiser's invariant *)
+Fixpoint leaves (t : tree) : list leaf :=
+  match t with
+  | Leaf l => [l]
+  | Lst _ _ cs | MSet _ cs | FDict cs => flat_map leaves cs
+  | Kvp _ k v => leaves k ++ leaves v
+  end.
+Definition consistent (a b : tree) : bool :=
+  forallb (fun x => forallb (fun y => leaf_consistent x y) (leaves b)) (leaves a).
 
 Definition all_leaves (cs : list tree) : bool := forallb is_leaf cs.
 
